@@ -597,6 +597,8 @@ void run_driver_direct(Engine& E, verif::Rng& r, Case& c, FieldT const& field, b
     double step = c.step;
     for (int k = 0; k < nadv; ++k)
     {
+        if (at_map_edge)
+            step = std::min(step, edge_z / 3);  // stay inside the map (|dz| <= 3 steps <= zmax)
         AdvEv a;
         a.req = step;
         a.in = st;
@@ -709,8 +711,10 @@ void dispatch_field(Engine& E, verif::Rng& r, Case& c, bool direct)
                 // hostile variant in driver-direct mode: start exactly on the last grid
                 // plane of the map (z == max_z is "valid" for the map)
                 bool edge = direct && r.coin(0.1);
-                double zmax = edge ? r.loguniform(1.0, 1e3) : 1e7;
-                auto params = Ctx::make_const_map(bnat[2], zmax, 1e7);
+                // (otherwise the map is made large enough that no generated track can leave
+                // it: outside the map the field is zero)
+                double zmax = edge ? r.loguniform(1.0, 1e3) : 1e15;
+                auto params = Ctx::make_const_map(bnat[2], zmax, 1e15);
                 RZMapField f(params->host_ref());
                 direct ? run_driver_direct<StepperTT>(E, r, c, f, edge, zmax)
                        : run_propagations<StepperTT>(E, r, c, g, f);
